@@ -99,6 +99,7 @@ type wConfig struct {
 	CallTimeout int  `json:"calltimeout,omitempty"`
 	Anon       []int `json:"anon,omitempty"` // indices of users that log in at anonymous level
 	Media      bool  `json:"media,omitempty"` // configure the fs media handler (sticky per process)
+	Bkg        []int `json:"bkg,omitempty"`   // session slots which say {hi bkg=true}
 }
 
 var wMediaOn bool
@@ -528,7 +529,13 @@ func wJSON(v any) string {
 
 // hi + token login for user u on session ss; returns the login ctrl code.
 func (w *wWorld) login(ss *wSess, u int) int {
-	w.do(ss, `{"hi":{"id":"`+w.nextID()+`","ver":"0.22","ua":"verif/1.0"}}`)
+	bkg := ""
+	for _, slot := range w.cfg.Bkg {
+		if slot == ss.idx {
+			bkg = `,"bkg":true`
+		}
+	}
+	w.do(ss, `{"hi":{"id":"`+w.nextID()+`","ver":"0.22","ua":"verif/1.0"`+bkg+`}}`)
 	id := w.nextID()
 	fr := w.do(ss, `{"login":{"id":"`+id+`","scheme":"token","secret":`+wJSON(w.users[u].token)+`}}`)
 	code := wCtrlCode(fr, id)
@@ -660,6 +667,8 @@ type wTopicSnap struct {
 	Public   any
 	Trusted  any
 	AccessAuth, AccessAnon types.AccessMode
+	PerSubs  map[string]perSubsData
+	Loaded   bool
 }
 
 // liveTopics reads hub state; call only at quiescence.
@@ -677,6 +686,11 @@ func (w *wWorld) liveTopics() map[string]*wTopicSnap {
 		for s, p := range t.sessions {
 			ts.Sessions[s.sid] = p
 		}
+		ts.PerSubs = map[string]perSubsData{}
+		for k, v := range t.perSubs {
+			ts.PerSubs[k] = v
+		}
+		ts.Loaded = t.isLoaded()
 		out[k.(string)] = ts
 		return true
 	})
